@@ -55,6 +55,7 @@ def run(ctx):
                     "hand-written model Obs/Format.v tied to obs.py / fits.py by correspondence"]
     ctx.assumptions += ["cases within 2^-40 of a rounding tie of the scaled error are skipped and counted (binary64 product)"]
     ctx.copy_props()
+    common.tie_pycore(ctx, ["Tie_plottable.v"])        # the three comprehensions of Corr.plottable, regenerated
 
     n = 1500 if quick else 30000
     fc = []
